@@ -16,7 +16,7 @@ metas = [json.load(open(m)) for m in sorted(glob.glob(os.path.join(root, "seeded
 n = len(metas); conf = sum(1 for m in metas if m.get("confirmed"))
 caught = sum(1 for m in metas if any(c.endswith("VIOLATION") for c in m.get("checks_run", [])))
 noinput = sum(1 for m in metas if any(c.endswith("NOINPUT") for c in m.get("checks_run", [])) and not any(c.endswith("VIOLATION") for c in m.get("checks_run", [])))
-missed_first = sum(1 for m in metas if m.get("history"))
+missed_first = sum(1 for m in metas if m.get("history") or m.get("strengthened"))
 rej = len(glob.glob(os.path.join(root, "seeded/_rejected/*/meta.json")))
 summary = (f"{n} seeded changes kept ({conf} confirmed by `bin/seedtest`: patch applies, pinned tests pass, demo fails with / passes "
            f"without), {rej} rejected as not breaking the property as stated (`seeded/_rejected/`).  {caught} are reported as "
